@@ -420,8 +420,8 @@ def harnesses(tier):
         Harness('assemble_way', 'assemble', h_assemble_way, mode='INT', opaque_fp=True, reach=('end', 'assembled', 'rejected'), wall=1500,
                 jobs=[dict(ids=[1, 2, 3, 1], range=2), dict(ids=[1, 2, 3, 4, 1], range=2, fixed={1: (1, 1)})] if q else
                      [dict(ids=[1, 2, 3, 1], range=4), dict(ids=[1, 2, 3, 4, 1], range=2), dict(ids=[1, 2, 3, 4, 1], range=3, fixed={1: (1, 1)}), dict(ids=[1, 2, 3, 4, 5, 1], range=2, fixed={1: (1, 1), 2: (2, 0)})],
-                tests=[dict(_job=0, x1=0, y1=0, x2=1, y2=0, x3=0, y3=1), dict(_job=0, x1=0, y1=0, x2=1, y2=1, x3=2, y3=2), dict(_job=1, x2=0, y2=0, x3=2, y3=2, x4=0, y4=2)],
-                testgen=lambda rnd: [dict(_job=1, **{'%s%d' % (c, k): rnd.randint(0, 2) for k in (2, 3, 4) for c in 'xy'}) for _ in range(12)],
+                tests=[dict(_job=0, x1=0, y1=0, x2=1, y2=0, x3=0, y3=1), dict(_job=0, x1=0, y1=0, x2=1, y2=1, x3=2, y3=2), dict(_job=1, x1=1, y1=1, x2=0, y2=0, x3=2, y3=2, x4=0, y4=2)],
+                testgen=lambda rnd: [dict(_job=1, **{'%s%d' % (c, k): rnd.randint(0, 2) for k in (1, 2, 3, 4) for c in 'xy'}) for _ in range(12)],
                 desc='the real area::Assembler (segment extraction, sort, duplicate removal, intersection search, ring construction, orientation, AreaBuilder output) on one closed way whose vertices are symbolic points of a small grid: '
                      'an area with rings is produced iff the way is a simple polygon (exact orientation-test reference; crossing, touching, folding and collinear-degenerate ways give an area without rings plus a report); '
                      'the delivered outer ring is closed, has >= 4 points, does not touch itself, contains exactly the way\'s vertices, encloses the same region (doubled signed area) and is counter-clockwise',
